@@ -20,8 +20,7 @@ Inductive case :=
 | CQueue (requires : bool) (ops : list qop) (evs : list (Z * Z * Z * bool)) (es : list (Z * Z)) (elected : Z).
 
 (** Ideal (collision-free) group key: the pair itself. *)
-Definition ikey (tag data : Z) : Z * Z :=
-  (if Gen.C04.group_key_covers_type then tag else 0, if Gen.C04.group_key_covers_bytes then data else 0).
+Definition ikey (tag data : Z) : Z * Z := code_key (fun t d => (t, d)) tag data.
 Definition ikeqb (a b : Z * Z) : bool := (fst a =? fst b) && (snd a =? snd b).
 
 Definition mk_ev (t : Z * Z * Z * bool) : evidence :=
